@@ -438,6 +438,13 @@ class Runner:
                 self.submit(st, op[1])
             else:
                 self.submit(st, op[1], dup=True)
+        elif name == "await-final":
+            # the caller watches job.state (public attribute) instead of calling wait(): it goes on
+            # as soon as the state is final, possibly before the scheduler has finished with the job
+            job = st.jobs.get(op[1])
+            if job is not None:
+                k.wait_until(lambda: job.state.finished())
+                k.log("state-seen-final", x=op[1], state=job.state.name)
         elif name == "wait":
             x = op[1]
             job = st.jobs.get(x)
